@@ -36,7 +36,21 @@ func isTotalLocked(c *Ctx, e *ir.Expr) bool {
 }
 
 func isBankSupplyOf(c *Ctx, e *ir.Expr, denom func(*ir.Expr) bool) bool {
-	return calleeIs(e, "BankKeeper.GetSupply") && len(e.Args) == 3 && denom(e.Args[2])
+	if calleeIs(e, "BankKeeper.GetSupply") && len(e.Args) == 3 && denom(e.Args[2]) {
+		return true
+	}
+	// (read through a small getter of the keeper)
+	if e.Op == "call" && e.Callee != nil {
+		x := c.W.Expand(e, 3)
+		return calleeIs(x, "BankKeeper.GetSupply") && len(x.Args) == 3 && denom(x.Args[2])
+	}
+	return false
+}
+
+// denomOfSupply: e is the Denom of the coin bank.GetSupply hands back for a denomination accepted by denom — by the
+// bank's contract that denomination itself (trusted: GetSupply(d) returns a coin of denomination d).
+func denomOfSupply(c *Ctx, e *ir.Expr, denom func(*ir.Expr) bool) bool {
+	return e.Op == "field" && e.Name == "Denom" && len(e.Args) == 1 && isBankSupplyOf(c, e.Args[0], denom)
 }
 
 func C17(c *Ctx) {
@@ -56,10 +70,18 @@ func C17(c *Ctx) {
 	r.Explanation = "(A2 + origins on go/ssa) the three supply functions: for the enterprise denomination the value returned is bank.GetSupply(d).Sub(stored TotalLocked) and for every other denomination bank.GetSupply(d) unchanged, each return being reachable only on the matching side of d == params.Denom; the paginated variant returns the bank's page itself and rewrites element i in place with c.Sub(stored TotalLocked) only under c.Denom == params.Denom (no append/removal); the EnterpriseSupply record maps Total←supply, Locked←locked, Amount←supply.Sub(locked) for denom params.Denom; " +
 		"(A7) the gRPC SupplyOf/TotalSupply handlers (and the *Overwrite aliases bound to the bank REST paths) return those functions' results for the request's denom/pagination; (A3) the enterprise gateway routes are registered before ModuleBasics' routes so the overwrite paths win; (A7) the CLI supply commands call the enterprise query client. Numeric identities and non-negativity are not decided."
 	r.Rules = []string{"A2.supply-of", "A2.paginated-supply", "A7.enterprise-supply", "A7.query-wiring", "A3.route-order", "A7.gateway-paths", "A7.cli-client"}
-	r.Trusted = []string{"bank GetSupply / GetPaginatedTotalSupply return the recorded supply, each denomination once", "grpc-gateway mux: first registered handler for a pattern wins"}
+	r.Trusted = []string{"bank GetSupply / GetPaginatedTotalSupply return the recorded supply, each denomination once", "bank GetSupply(d) hands back a coin of denomination d", "grpc-gateway mux: first registered handler for a pattern wins"}
 	r.NotDecided = []string{"locked + unlocked == total numerically; non-negativity of supply - locked", "bank pagination itself"}
-	isReqDenom := func(e *ir.Expr) bool { return e.Op == "param" }
-	isEntDenom := func(e *ir.Expr) bool { return isEntParam(c, e, "Denom") }
+	isReqParam := func(e *ir.Expr) bool { return e.Op == "param" }
+	isEntParamDenom := func(e *ir.Expr) bool { return isEntParam(c, e, "Denom") }
+	// the requested (enterprise) denomination, also as the Denom of the coin the bank hands back for it
+	isReqDenom := func(e *ir.Expr) bool { return isReqParam(e) || denomOfSupply(c, e, isReqParam) }
+	isEntDenom := func(e *ir.Expr) bool { return isEntParamDenom(e) || denomOfSupply(c, e, isEntParamDenom) }
+	// a test that can never hold: the bank's coin for the enterprise denomination in another denomination than that
+	never := func(p ir.Pred) bool {
+		return cmpIs(p, "!=", func(x *ir.Expr) bool { return denomOfSupply(c, x, isEntParamDenom) }, isEntParamDenom) ||
+			cmpIs(p, "!=", isEntParamDenom, func(x *ir.Expr) bool { return denomOfSupply(c, x, isEntParamDenom) })
+	}
 
 	// SupplyOf
 	n := 0
@@ -135,7 +157,11 @@ func C17(c *Ctx) {
 		pageFns[f] = true
 		key := fn(f)
 		pe := w.ExprOf(page)
-		for i, ret := range ir.Returns(f) {
+		rets := ir.Returns(f)
+		if sr := w.SuccessReturns(f); len(sr) > 0 && ir.ErrIndex(f) >= 0 {
+			rets = sr // (what a failing return hands back beside the error is not a listing)
+		}
+		for i, ret := range rets {
 			v := w.ExprOf(ret.Results[0])
 			ok := v.Op == "res" && v.Name == "0" && v.Args[0].String() == pe.String()
 			r.Require(ok, "A2.paginated-supply", fmt.Sprintf("%s|return%d|slice", key, i), pos(c, ret), "the listing returned is the bank's page itself (no element added or removed)", "returns "+v.String())
@@ -220,6 +246,36 @@ func C17(c *Ctx) {
 			}
 		}
 		r.Require(nst == 1, "A2.paginated-supply", key+"|one-rewrite", w.Pos(f.Pos()), "exactly one in-place rewrite of the listing exists", fmt.Sprintf("%d stores into the listing", nst))
+		// the listing is handed back only after its entries were looked at: no successful return goes round the loop that
+		// holds the rewrite (a shortcut decided from the page's keys or continuation key skips the enterprise entry when
+		// the decision is wrong — that it is right is a property of values, which is not decided here)
+		seenHdr := map[*ssa.BasicBlock]bool{}
+		for _, b := range f.Blocks {
+			for _, in := range b.Instrs {
+				// (any access to an entry of the listing marks the loop: the rewrite itself may be followed by a break)
+				ia, ok := in.(*ssa.IndexAddr)
+				if !ok {
+					continue
+				}
+				if base := w.ExprOf(ia.X); !(base.Op == "res" && base.Args[0].String() == pe.String()) {
+					continue
+				}
+				hdr := ir.EnclosingLoopHeader(f, ia)
+				if hdr == nil || len(hdr.Instrs) == 0 || seenHdr[hdr] {
+					continue
+				}
+				seenHdr[hdr] = true
+				emptyPage := w.EstablishedEdges(f, func(p ir.Pred) bool {
+					return cmpIs(p, "==", func(x *ir.Expr) bool {
+						return x.Op == "call" && x.Name == "builtin:len" && len(x.Args) == 1 && x.Args[0].Op == "res" && x.Args[0].Args[0].String() == pe.String()
+					}, func(y *ir.Expr) bool { return y.Op == "const" && y.Name == "0" })
+				}, 0)
+				for i, ret := range rets {
+					round := ir.ReachesFrom(f, page.Block(), ir.InstrIndex(page)+1, ret, ir.Cut{Edges: emptyPage, Barrier: func(x ssa.Instruction) bool { return x.Block() == hdr }})
+					r.Require(!round, "A2.paginated-supply", fmt.Sprintf("%s|return%d|examined", key, i), pos(c, ret), "the listing is returned only after the loop over its entries (the one that reduces the enterprise entry) has run", "a successful return is reachable without entering that loop")
+				}
+			}
+		}
 		// no append to the listing
 		for _, b := range f.Blocks {
 			for _, in := range b.Instrs {
@@ -279,24 +335,51 @@ func C17(c *Ctx) {
 			r.Require(v != nil && ok(v), "A7.enterprise-supply", fn(f)+"."+field, w.Pos(f.Pos()), "EnterpriseSupply."+field+" = "+want, fmt.Sprint(v))
 		}
 		chk("Denom", isEntDenom, "params.Denom")
-		chk("Total", func(v *ir.Expr) bool { a := amt(v); return a != nil && isBankSupplyOf(c, a, isEntDenom) }, "bank supply of the enterprise denom")
+		chk("Total", func(v *ir.Expr) bool { a := amt(v); return a != nil && isBankSupplyOf(c, a, isEntParamDenom) }, "bank supply of the enterprise denom")
 		chk("Locked", func(v *ir.Expr) bool { a := amt(v); return a != nil && isTotalLocked(c, a) }, "stored TotalLocked")
 		chk("Amount", func(v *ir.Expr) bool {
 			a := amt(v)
-			return a != nil && calleeIs(a, "types.Coin).Sub") && len(a.Args) == 2 && isBankSupplyOf(c, a.Args[0], isEntDenom) && isTotalLocked(c, a.Args[1])
+			return a != nil && calleeIs(a, "types.Coin).Sub") && len(a.Args) == 2 && isBankSupplyOf(c, a.Args[0], isEntParamDenom) && isTotalLocked(c, a.Args[1])
 		}, "supply.Sub(locked)")
 	}
 	r.Floor("functions building the EnterpriseSupply record", ns, 1)
 
 	// unlocked total
+	unlockedFns := map[*ssa.Function]bool{}
 	if f := w.LookupFunc("(x/enterprise/keeper.Keeper).GetTotalUnLockedUnd"); f != nil {
+		isDiff := func(v *ir.Expr) bool {
+			return calleeIs(v, "types.Coin).Sub") && len(v.Args) == 2 && isBankSupplyOf(c, v.Args[0], isEntParamDenom) && isTotalLocked(c, v.Args[1])
+		}
 		v := inl(w.Summary(f).Args[0])
 		if !calleeIs(v, "types.Coin).Sub") {
 			if x := w.Expand(v, 3); calleeIs(x, "types.Coin).Sub") {
 				v = x
 			}
 		}
-		ok := calleeIs(v, "types.Coin).Sub") && len(v.Args) == 2 && isBankSupplyOf(c, v.Args[0], isEntDenom) && isTotalLocked(c, v.Args[1])
+		ok := isDiff(v)
+		if !ok {
+			// through a helper that decides by denomination: every way it can actually hand back its result
+			ok = true
+			nAlt := 0
+			for _, alt := range returnAlts(c, f, 0) {
+				if alt.Guarded(never, 1) {
+					continue // the arm for other denominations is never taken for the bank's coin of the enterprise denomination
+				}
+				nAlt++
+				x := inl(alt.E)
+				if !isDiff(x) {
+					x = w.Expand(alt.E, 4)
+				}
+				if !isDiff(x) {
+					ok = false
+					v = x
+				}
+			}
+			ok = ok && nAlt > 0
+		}
+		if ok {
+			unlockedFns[f] = true
+		}
 		r.Require(ok, "A7.enterprise-supply", "total-unlocked", w.Pos(f.Pos()), "total unlocked = bank supply of the enterprise denom minus stored TotalLocked", v.String())
 	}
 
@@ -312,6 +395,9 @@ func C17(c *Ctx) {
 		{"SupplyOf", "Amount", "the per-denomination supply function", roleIs(supplyOfFns)},
 		{"TotalSupply", "Supply", "the paginated supply function", roleIs(pageFns)},
 		{"TotalUnlocked", "Amount", "bank supply of the enterprise denom minus stored TotalLocked", func(src *ir.Expr) bool {
+			if src.Op == "call" && src.Callee != nil && unlockedFns[src.Callee] {
+				return true
+			}
 			x := w.Expand(src, 4)
 			return calleeIs(x, "types.Coin).Sub") && len(x.Args) == 2 && isBankSupplyOf(c, x.Args[0], isEntDenom) && isTotalLocked(c, x.Args[1])
 		}},
